@@ -243,6 +243,14 @@ func genTokens(r *common.Rng, s archSpec, kind byte) string {
 			return r.Intn(limit + 1)
 		}
 	}
+	// plain decimal operands, now and then written with leading zeros (010 is ten, not eight)
+	num := func(v int) string {
+		t := strconv.Itoa(v)
+		if r.Chance(1, 8) {
+			t = strings.Repeat("0", 1+r.Intn(2)) + t
+		}
+		return t
+	}
 	switch kind {
 	case 'r':
 		return "r" + strconv.Itoa(pick(1<<uint(s.r)))
@@ -261,13 +269,13 @@ func genTokens(r *common.Rng, s archSpec, kind byte) string {
 				return strconv.FormatUint(r.Next(), 10)
 			}
 		}
-		return strconv.Itoa(pick(1 << uint(s.rsize)))
+		return num(pick(1 << uint(s.rsize)))
 	case 'a': // rom address
-		return strconv.Itoa(pick(1 << uint(s.o)))
+		return num(pick(1 << uint(s.o)))
 	case 'm': // ram address
-		return strconv.Itoa(pick(1 << uint(s.l)))
+		return num(pick(1 << uint(s.l)))
 	case 'c':
-		return strconv.Itoa(pick(256))
+		return num(pick(256))
 	case 'C', 'K', 'L', 'Q', 'S', 'U': // shared-object names: ch<k> k<k> lfsr8<k> q<k> st<k> u<k>
 		kind := map[byte]string{'C': "channel", 'K': "kbd", 'L': "lfsr8", 'Q': "queue", 'S': "stack", 'U': "uart"}[kind]
 		short := soShort[kind]
